@@ -62,15 +62,23 @@ def bipRow (G : BipG) (start : Nat) (u : Nat) : List Nat := (G.rnbrs u).map (bip
 /-- identifiers `f(None, v)` -/
 def bipCol (G : BipG) (start : Nat) (v : Nat) : List Nat := (G.lnbrs v).map (fun u => bipId G start u v)
 
-/-- `to_index(lit)` of `BipartiteEdgesVariables` -/
+/-- `to_index(lit)` of `BipartiteEdgesVariables`.
+`bisect_right(self.offset, var) - 1` is computed on `offset[1:]` (entry 0 of the Python list is
+`None`; the binary search never looks at it when `var ≥ offset[1]`, which `var in self` ensures).
+The `IndexError` of `right_neighbors(u)[vidx]` and the `assert self(u, v) == var` of the code are
+kept: the theorems show that neither can fire on a well-formed graph. -/
 def bipIndex (G : BipG) (start : Nat) (lit : Int) : Except Err (Nat × Nat) :=
   let var := lit.natAbs
   if start ≤ var ∧ var < start + G.numberOfEdges then
-    -- bisect_right(offset, var) - 1 over offset[1..]
     let offs := (bipOffsets G start).drop 1
-    let u := (offs.takeWhile (· ≤ var)).length
+    let u := bisectRight offs var
     let vidx := var - offs.getD (u - 1) 0
-    .ok (u, (G.rnbrs u).getD vidx 0)
+    match (G.rnbrs u)[vidx]? with
+    | none => .error .indexError
+    | some v =>
+      if ¬ G.hasEdge u v then .error .valueError          -- `self(u, v)` → `indices(u, v)`
+      else if bipId G start u v ≠ var then .error .assertion
+      else .ok (u, v)
   else .error .valueError
 
 /-- complete mapping `new_mapping(n, m)`: identifier of `f(u)=v` -/
@@ -78,8 +86,10 @@ def mapId (start : Nat) (m : Nat) (u v : Nat) : Nat := start + (u - 1) * m + (v 
 
 /-! ### binary mapping -/
 
-/-- `int(ceil(log(m, 2)))` computed exactly (smallest `b` with `m ≤ 2^b`) -/
-def clog2 (m : Nat) : Nat := (List.range (m + 1)).find? (fun b => m ≤ 2 ^ b) |>.getD m
+/-- `int(ceil(log(m, 2)))` computed exactly: the smallest `b` with `m ≤ 2^b`
+(`Lemmas/VarsBinary.lean`: `clog2_spec`).  The float computation of the code agrees with it for
+every `m < 2^29` (checked exhaustively up to `2^20` by the harness author; `m = 2^29` gives 30). -/
+def clog2 (m : Nat) : Nat := if m ≤ 1 then 0 else Nat.log2 (m - 1) + 1
 
 /-- `_unsafe_index_to_lit((i, b))` with `id_offset = start - 1` -/
 def binId (start bits : Nat) (i b : Nat) : Nat := i * bits - b + (start - 1)
@@ -102,6 +112,123 @@ def combosReplSeqs (n k : Nat) : List (List Nat) := combosRepl (rangeN 1 (n + 1)
 def wordId (start : Nat) (seqs : List (List Nat)) (w : List Nat) : Option Nat :=
   let i := seqs.idxOf w
   if i < seqs.length then some (start + i) else none
+
+/-- `seq2vid[w]` of `WordOfIndicesVariables`: the dictionary is filled in enumeration order, a
+repeated key would be overwritten, i.e. the *last* position wins (never happens: the enumerations
+are duplicate-free, `Lemmas/VarsWords.lean`; then this is `wordId`). -/
+def lastIdxOf : List (List Nat) → List Nat → Option Nat
+  | [], _ => none
+  | x :: xs, w =>
+    match lastIdxOf xs w with
+    | some i => some (i + 1)
+    | none => if x = w then some 0 else none
+
+def seq2vid (start : Nat) (seqs : List (List Nat)) (w : List Nat) : Option Nat :=
+  (lastIdxOf seqs w).map (start + ·)
+
+/-- `to_index(lit)` of `WordOfIndicesVariables`: `vid2seq[var - offset - 1]` -/
+def wordIndex (start : Nat) (seqs : List (List Nat)) (lit : Int) : Except Err (List Nat) :=
+  let var := lit.natAbs
+  if start ≤ var ∧ var < start + seqs.length then
+    match seqs[var - start]? with
+    | some w => .ok w
+    | none => .error .indexError
+  else .error .valueError
+
+/-! ### binary mapping: the remaining methods -/
+
+/-- `to_index(lit)` of `BinaryMappingVariables` (`id_offset = start - 1`) -/
+def binIndex (start n bits : Nat) (lit : Int) : Except Err (Nat × Nat) :=
+  let var := lit.natAbs
+  if start ≤ var ∧ var < start + n * bits then
+    let rel := var - (start - 1)
+    .ok ((rel - 1) / bits + 1, bits - 1 - (rel - 1) % bits)
+  else .error .valueError
+
+/-- `flips[j]` for a Python index `j` (negative indices count from the end — `forbid` has no
+lower-bound check) -/
+def flipsGet (bits : Nat) (j : Int) : Except Err (List Int) :=
+  if 0 ≤ j then
+    if j.toNat < 2 ^ bits then .ok (flipPattern bits j.toNat) else .error .indexError
+  else if (-j).toNat ≤ 2 ^ bits then .ok (flipPattern bits (2 ^ bits - (-j).toNat))
+  else .error .indexError
+
+/-- `forbid(i, j)` with every check of the code: `j >= 2**bits` → ValueError, `flips[j]`
+(IndexError for `j < -2**bits`), then `self(i, None)` (ValueError unless `1 ≤ i ≤ n`) -/
+def forbidFull (start n bits : Nat) (i j : Int) : Except Err Clause :=
+  if j ≥ 2 ^ bits then .error .valueError
+  else do
+    let signs ← flipsGet bits j
+    if ¬ (1 ≤ i ∧ i ≤ n) then .error .valueError
+    else .ok (signs.zipWith (fun s t => s * (binId start bits i.toNat (bits - 1 - t) : Int)) (List.range bits))
+
+/-! ### edges of simple and directed graphs: the auxiliary bipartite graph -/
+
+/-- `GraphEdgesVariables.__init__`: `B = BipartiteGraph(V, V)`, one edge `(min, max)` per edge -/
+def graphAux (G : SimpleG) : Except Err BipG :=
+  G.edges.foldlM (fun (B : BipG) e =>
+    let u := min e.1 e.2; let v := max e.1 e.2
+    if B.hasEdge u v then pure B else B.addEdge u v) (BipG.init G.n G.n)
+
+/-- `DiGraphEdgesVariables.__init__`: `B.add_edge(u, v)` for `sortby='pred'`, `B.add_edge(v, u)`
+for `sortby='succ'`, over `D.edges()` -/
+def digraphAux (D : DiG) (succ : Bool) : Except Err BipG :=
+  D.edges.foldlM (fun (B : BipG) e =>
+    if succ then B.addEdge e.2 e.1 else B.addEdge e.1 e.2) (BipG.init D.n D.n)
+
+/-! ### the group objects -/
+
+/-- a created variable group; `start` is its first identifier (`ids = range(start, start+len)`).
+`bip … unary` is a `UnaryMappingVariables` when `unary`, else a `BipartiteEdgesVariables`;
+`graph`/`digraph` hold the auxiliary bipartite graph `B`. -/
+inductive Group where
+  | single (start : Nat) (name : Option String)
+  | block (start : Nat) (ranges : List Nat) (fmt : String)
+  | word (start : Nat) (seqs : List (List Nat)) (fmt : String)
+  | bip (start : Nat) (G : BipG) (fmt : String) (unary : Bool)
+  | graph (start : Nat) (B : BipG) (fmt : String)
+  | digraph (start : Nat) (B : BipG) (succ : Bool) (fmt : String)
+  | binary (start : Nat) (n m : Nat) (fmt : String)
+  deriving Repr, DecidableEq, Inhabited
+
+namespace Group
+
+def start : Group → Nat
+  | single s _ | block s _ _ | word s _ _ | bip s _ _ _ | graph s _ _ | digraph s _ _ _
+  | binary s _ _ _ => s
+
+/-- `len(vg)` -/
+def len : Group → Nat
+  | single _ _ => 1
+  | block _ ranges _ => blockSize ranges
+  | word _ seqs _ => seqs.length
+  | bip _ G _ _ => G.numberOfEdges
+  | graph _ B _ => B.numberOfEdges
+  | digraph _ B _ _ => B.numberOfEdges
+  | binary _ n m _ => n * clog2 m
+
+/-- `vg.ids` -/
+def ids (g : Group) : List Nat := List.range' g.start g.len
+
+def isSingle : Group → Bool
+  | single _ _ => true
+  | _ => false
+
+/-- `lit in vg` -/
+def contains (g : Group) (lit : Int) : Bool := g.start ≤ lit.natAbs && lit.natAbs < g.start + g.len
+
+/-- `vg.to_index(lit)`; the index is returned as a list of integers -/
+def toIndex : Group → Int → Except Err (List Nat)
+  | single s _, lit => if lit.natAbs ≠ s then .error .valueError else .ok []
+  | block s ranges _, lit => blockIndex s ranges lit
+  | word s seqs _, lit => wordIndex s seqs lit
+  | bip s G _ _, lit => (bipIndex G s lit).map (fun p => [p.1, p.2])
+  | graph s B _, lit => (bipIndex B s lit).map (fun p => [p.1, p.2])
+  | digraph s B succ _, lit =>
+    (bipIndex B s lit).map (fun p => if succ then [p.2, p.1] else [p.1, p.2])
+  | binary s n m _, lit => (binIndex s n (clog2 m) lit).map (fun p => [p.1, p.2])
+
+end Group
 
 end Vars
 end Cnfgen
